@@ -164,7 +164,7 @@ func RunPlan(run *ev.Run, plan Plan, replay string) {
 		ReplayAll(run, plan, []*Trace{rp.Replay.Trace}, "replay")
 		return
 	}
-	var states, transitions int64
+	var states, transitions, simStates int64
 	for ei, e := range plan.Exhaustive {
 		if sh, n := ev.Shard(); ei%n != sh {
 			continue // the exhaustive runs are divided among the shards
@@ -217,11 +217,10 @@ func RunPlan(run *ev.Run, plan Plan, replay string) {
 			return
 		}
 		transitions += res.Generated
+		simStates += res.Generated
 		ReplayAll(run, plan, traces, sc.File)
 	}
-	if states == 0 {
-		states = 1
-	}
-	run.Set("states", states)
-	run.Set("transitions", transitions)
+	run.Add("states", states)
+	run.Add("transitions", transitions)
+	run.Add("states_visited_in_simulation", simStates)
 }
